@@ -120,6 +120,11 @@ where
         let data = self.stream.buf_mut().take_chunk(self.remaining_data);
 
         match (data, end) {
+            // The stream ended while payload bytes of the current DATA frame are
+            // still owed: the frame is truncated.
+            (None, true) if self.remaining_data != usize::MAX => {
+                Poll::Ready(Err(FrameStreamError::UnexpectedEnd))
+            }
             (None, true) => Poll::Ready(Ok(None)),
             (None, false) => Poll::Pending,
             (Some(d), true)
